@@ -144,7 +144,7 @@ func (x *Exec) oblige(st *State, kind, label, site string, goal *Term, note stri
 	if x.dry > 0 {
 		return
 	}
-	if cs := conjuncts(goal); len(cs) > 1 && (kind == "post" || kind == "inv" || strings.HasPrefix(kind, "pre(")) {
+	if cs := conjuncts(goal); len(cs) > 1 && (kind == "post" || kind == "inv" || kind == "edge" || strings.HasPrefix(kind, "pre(")) {
 		for i, c := range cs {
 			x.oblige(st, kind, fmt.Sprintf("%s/%d", label, i+1), site, c, note)
 		}
